@@ -10,6 +10,7 @@ require (
 	github.com/aperturerobotics/util v1.33.1
 	github.com/blang/semver/v4 v4.0.0
 	github.com/mr-tron/base58 v1.3.0
+	github.com/quic-go/quic-go v0.59.0
 	github.com/sirupsen/logrus v1.9.5-0.20260309202648-9f0600962f75
 	github.com/zeebo/blake3 v0.2.4
 	pgregory.net/rapid v1.3.0
@@ -38,6 +39,7 @@ require (
 	github.com/spaolacci/murmur3 v1.1.0 // indirect
 	golang.org/x/crypto v0.50.0 // indirect
 	golang.org/x/exp v0.0.0-20250408133849-7e4ce0ab07d0 // indirect
+	golang.org/x/net v0.52.0 // indirect
 	golang.org/x/sys v0.43.0 // indirect
 	lukechampine.com/blake3 v1.2.1 // indirect
 )
